@@ -267,3 +267,62 @@ def run(chk):
         for name, g in got.items():
           if g != concrete:
             chk.violation(key, f'{name} yields {g}, the concrete init {concrete}', {})
+  # ---- a *bound* submodule taken out of a live bound parent and handed, as an attribute, to a new module: the new module's init
+  # gives it fresh variables under the attribute name and apply computes with exactly those
+  class Enc(nn.Module):
+    @nn.compact
+    def __call__(self, x):
+      return self.param('w', lambda k: jax.random.normal(k, ())) * x
+
+  class AE(nn.Module):
+    def setup(self):
+      self.enc = Enc()
+
+    def __call__(self, x):
+      return self.enc(x)
+
+  class Clf(nn.Module):
+    backbone: nn.Module
+
+    @nn.compact
+    def __call__(self, x):
+      return self.backbone(x) + self.param('b', lambda k: jnp.asarray(100.0))
+  chk.count('C02:bound-submodule-as-attribute')
+  try:
+    xb = jnp.asarray(2.0)
+    ae = AE()
+    bound = ae.bind(ae.init(jax.random.key(0), xb))      # kept alive
+    clf = Clf(backbone=bound.enc)
+    y0, cv = clf.init_with_output(jax.random.key(1), xb)
+    y1 = clf.apply(cv, xb)
+    other = {'params': {'backbone': {'w': jnp.asarray(7.0)}, 'b': jnp.asarray(1.0)}}
+    y2 = clf.apply(other, xb)
+    if sorted(cv['params']) != ['b', 'backbone'] or float(y0) != float(y1) or float(y2) != 15.0:
+      chk.violation('C02:bound-submodule-as-attribute', f'init creates {sorted(cv["params"])}; init output {float(y0)}, apply on its variables {float(y1)}; apply on '
+                                                        f'(backbone.w = 7, b = 1) gives {float(y2)}, expected 15.0 (apply must compute with the variables it is given)', {})
+  except Exception as e:
+    chk.violation('C02:bound-submodule-as-attribute', f'raised {type(e).__name__}: {str(e)[:200]}', {})
+  # ---- submodules in a dict-valued attribute whose keys have the same string form (1 and '1') would get the same name: reported, never merged
+  class Heads(nn.Module):
+    def setup(self):
+      self.heads = {1: nn.Dense(2), '1': nn.Dense(4)}
+
+    def __call__(self, x):
+      return self.heads[1](x), self.heads['1'](x)
+
+  class HeadsField(nn.Module):
+    heads: dict
+
+    @nn.compact
+    def __call__(self, x):
+      return self.heads[1](x), self.heads['1'](x)
+  for label, mk in (('setup', Heads), ('field', lambda: HeadsField({1: nn.Dense(2), '1': nn.Dense(4)}))):
+    key = f'C02:dict-attribute-keys-with-equal-names:{label}'
+    chk.count(key)
+    try:
+      (ya, yb), hv = mk().init_with_output(jax.random.key(0), jnp.ones((2, 3)))
+    except Exception:
+      continue      # the clash is reported
+    heads = sorted({k[1][0] for k in struct(hv)})
+    if ya.shape != (2, 2) or yb.shape != (2, 4) or len(heads) != 2:
+      chk.violation(key, f'two submodules under the dict keys 1 and "1" (one name) were silently merged: outputs {ya.shape}, {yb.shape}; variables under {heads}', {})
